@@ -127,6 +127,7 @@ impl C10 {
         let sys_at = 0x7777_0000_0000u64;
         let mut brk_ready = false;
         let mut heap_start: Option<u64> = None;
+        let mut heap_break: Option<u64> = None;
         let mut counter = k.wrapping_mul(7_919);
         let mut prev = ax.verif_areas();
         let mut tail: Vec<String> = Vec::new();
@@ -319,7 +320,7 @@ impl C10 {
                         brk_ready = true;
                         prev = ax.verif_areas();
                     }
-                    let arg = match (heap_start, rng.below(6)) {
+                    let arg = match (heap_break.or(heap_start), rng.below(6)) {
                         (_, 0) | (None, _) => 0,
                         (Some(h), 1) => h + rng.below(0x100),
                         (Some(h), 2) => h + 0x1000,
@@ -336,8 +337,11 @@ impl C10 {
                     if res.is_panic() {
                         problem = Some((format!("panic:{}", res.panic_key()), res.describe()));
                     }
-                    if heap_start.is_none() && res.is_ok() {
-                        heap_start = ax.reg_read_64(SR::RAX).ok();
+                    if heap_start.is_none() {
+                        // the heap is the area this first brk call created (its start may lie below the break it returns)
+                        let now = ax.verif_areas();
+                        heap_start = now.iter().find(|n| !prev.iter().any(|p| p.start == n.start && p.length == n.length)).map(|n| n.start);
+                        heap_break = if res.is_ok() { ax.reg_read_64(SR::RAX).ok() } else { None };
                     }
                     expect = Plain::HeapOnly;
                 }
